@@ -18,7 +18,7 @@ RULE = (
     "One evaluation per loader pass / per baseline row; non-trivial = distinct case"
 )
 ASSUMPTIONS = ["baseline policy = small untrained AttentionModelPolicy; greedy rewards are batch-independent (C14)"]
-REQUIRED_COUNTERS = ["c17_module_setups", "c17_module_file_reads", "c17_loader_passes", "c17_partial_last_batch", "c17_shuffled_reads", "c17_extra_checks", "c17_wrap_calls", "c17_baseline_rows", "c17_history_rows", "c17_rewraps", "c17_optimizer_steps", "c17_fit_batches_with_extra", "c17_train_mode_flips"]
+REQUIRED_COUNTERS = ["c17_filename_override_reads", "c17_module_setups", "c17_module_file_reads", "c17_loader_passes", "c17_partial_last_batch", "c17_shuffled_reads", "c17_extra_checks", "c17_wrap_calls", "c17_baseline_rows", "c17_history_rows", "c17_rewraps", "c17_optimizer_steps", "c17_fit_batches_with_extra", "c17_train_mode_flips"]
 MIN_NONTRIVIAL = {"quick": 700, "thorough": 2000}
 WORKERS = {"quick": 14, "thorough": 16}
 BUDGET_S = {"quick": 400, "thorough": 3000}
